@@ -474,6 +474,8 @@ def c06(ctx, res):
 
     def load(ix):
         data = files[ix]
+        # (every seventh file is offered with `-f stack`: what the loader takes does not depend on the flag)
+        flag = ["-f", "stack"] if ix % 7 == 5 else []
         name = "f%d.%s" % (ix, "lc3" if ix % 2 else "obj")
         path = os.path.join(d, name)
         if via_fifo(ix):
@@ -482,11 +484,11 @@ def c06(ctx, res):
             os.mkfifo(path)
             t = threading.Thread(target=feed, args=(path, data), daemon=True)
             t.start()
-            r = lace(ctx, ["run", name, "--minimal"], cwd=d, timeout=8, stdin=b"")
+            r = lace(ctx, ["run", name, "--minimal"] + flag, cwd=d, timeout=8, stdin=b"")
             t.join(timeout=10)
         else:
             _write(path, data)
-            r = lace(ctx, ["run", name, "--minimal"], cwd=d, timeout=8, stdin=b"")
+            r = lace(ctx, ["run", name, "--minimal"] + flag, cwd=d, timeout=8, stdin=b"")
         os.remove(path)
         return ix, r
     for ix, r in pmap(load, range(len(files))):
@@ -506,6 +508,8 @@ def c06(ctx, res):
             if origin + n in (0xFFFE, 0xFFFF, 0x10000):
                 res.cls("edge:%X" % (origin + n))
         res.cls("loader:" + cls)
+        if ix % 7 == 5:
+            res.cls("loader:offered_with_the_stack_flag")
         detail = dict(r.brief(), file_len=len(data), file_head=data[:16].hex())
         if b"RTI implemented" in r.err or (r.rc is None and b"Running" in r.out):
             # the image was loaded and run: arbitrary bytes may execute RTI (documented as
@@ -1276,7 +1280,7 @@ def c08_surroundings(ctx, res, d):
     other_fs = "/dev/shm" if os.path.isdir("/dev/shm") and os.stat("/dev/shm").st_dev != os.stat(d).st_dev else None
     kinds = ["stdout_full", "stdout_reader_gone", "streams_closed", "dest_mtime_in_the_future", "tmpdir_missing", "tmpdir_other_fs", "stdout_is_the_destination_dir",
              "source_in_another_directory", "256_failing_statements", "512_failing_statements", "255_failing_statements",
-             "destination_locked_elsewhere", "destination_open_elsewhere"]
+             "destination_locked_elsewhere", "destination_open_elsewhere", "reference_65500_words_away", "reference_minus_65300_words_away"]
     for kind in kinds:
         for pre in (True, False):
             base = os.path.join(d, "sur_%s_%d" % (kind, pre))
@@ -1333,6 +1337,13 @@ def c08_surroundings(ctx, res, d):
                 os.makedirs(os.path.join(base, "src"), exist_ok=True)
                 os.replace(os.path.join(base, "p.asm"), os.path.join(base, "src", "p.asm"))
                 argv = [exe, "compile", "src/p.asm", "p.lc3"]
+            elif kind.startswith("reference_"):
+                # out of reach by nearly the whole 16-bit space: the distance is what it is, not what is left of it modulo 65536
+                if "minus" in kind:
+                    _write(os.path.join(base, "p.asm"), "far halt\n.blkw #65300\nld r0 far\nbr far\njsr far\n")
+                else:
+                    _write(os.path.join(base, "p.asm"), "ld r0 far\nlea r1 far\njsr far\n.blkw #65500\nfar halt\n")
+                expect_ok = False
             elif kind.endswith("_failing_statements"):
                 n_bad = int(kind.split("_")[0])
                 _write(os.path.join(base, "p.asm"), "ld r0 far\n" * n_bad + ".blkw #400\nfar halt\n")
@@ -1527,6 +1538,8 @@ def c14_transport(ctx, res):
              ["print \U0001F34B", "\U0001F34B", "\u00e9 r0", "move r1 \U0001D11E", "echo ok", "print r1", "quit"],
              ["echo " + "long line " * 9, "echo " + "\U0001F34B" * 40, "print" + " " * 130 + "r2", "echo " + "y" * 1100, "exit"],
              ["", " ", ";", "echo ;", "echo x", "exit"],
+             # a carriage return in the middle of a command is part of that command (a bad one), not a separator
+             ["move r0 5\rmove r0 6", "registers", "echo a\rb", "goto x3001\rregisters", "print r0", "exit"],
              # the last command is a single character with nothing behind it
              ["move r0 5", "step", "r"], ["echo a", "move r1 7", "print r1", "c"], ["step", "echo z", "x"],
              # two-byte characters from every sixteenth of their range (lead bytes xC2..xDF: Latin, Greek, Cyrillic, Hebrew, Arabic, N'Ko)
